@@ -10,7 +10,7 @@ from asyncio import events, transports
 from typing import Any, Callable, Dict, List, Optional
 
 from . import bootstrap  # noqa: F401
-from .core import STOP, Chooser, ConnRec, HarnessError, Instance, RecordingLogger, ScriptApp, WorldBase
+from .core import STOP, Chooser, ConnRec, HarnessError, Instance, RecordingLogger, ScriptApp, WorldBase, install_logger
 
 CONN_K: contextvars.ContextVar = contextvars.ContextVar("conn_k", default=None)
 
@@ -54,6 +54,25 @@ class VLoop(asyncio.BaseEventLoop):
 
     def _write_to_self(self) -> None:
         pass
+
+    async def create_datagram_endpoint(self, protocol_factory: Any, local_addr: Any = None, remote_addr: Any = None, **kw: Any) -> Any:
+        """UDP is owned too (only the statsd logger opens an endpoint): the real call suspends the caller
+        (getaddrinfo, connect); one yield stands for that; what is sent goes to world.statsd."""
+        await asyncio.sleep(0)
+        world = self.world
+
+        class _FakeDatagramTransport(asyncio.DatagramTransport):
+            def sendto(self, data: Any, addr: Any = None) -> None:
+                if world is not None and not world.finished:
+                    world.statsd.append(bytes(data))
+
+            def close(self) -> None:
+                pass
+
+            def is_closing(self) -> bool:
+                return False
+
+        return _FakeDatagramTransport(), protocol_factory()
 
     def _factory(self, loop: Any, coro: Any, **kw: Any) -> asyncio.Task:
         DTask._mc_id = len(self.all_tasks_ever) + 1  # visible to __hash__ during Task.__init__ (task registration)
@@ -415,11 +434,7 @@ class AioWorld(WorldBase):
         cfg = self.scenario.get("config_object") or Config()
         world = self
 
-        class _Logger(self.scenario.get("logger_base") or RecordingLogger):  # type: ignore[misc]
-            pass
-
-        _Logger.world = world
-        cfg.logger_class = _Logger
+        install_logger(self, cfg, "asyncio")  # scenario["logger"] = "real" | "statsd": hypercorn's own logger classes
         for key, value in self.scenario.get("config", {}).items():
             setattr(cfg, key, value)
         return cfg
